@@ -279,10 +279,15 @@ func (x *Exec) jsonUnmarshal(fr *Frame, st *State, ins ssa.Instruction, sig *typ
 					if target.LV == nil {
 						x.nilCheck(fr, st, target.T, ins, "json.Unmarshal into nil pointer")
 					}
+					// every field is a function of the document and the field (jsonfield(data, T, f) in contracts): decoding the same
+					// bytes twice gives the same values. Scalars, strings, times, ids: the value itself; []byte: its bytes value;
+					// lists of ids: length and elements pointwise; anything else: unconstrained.
+					tn := typeKeyName(pt.Elem())
 					for i := 0; i < et.NumFields(); i++ {
 						lv := x.fieldLV(target, pt.Elem(), i)
-						nv := x.freshVal(st, "decfield", et.Field(i).Type())
-						x.writeLV(st, lv, Ite(ok, nv.T, x.readLV(st, lv)))
+						ft := et.Field(i).Type()
+						nv := x.jsonFieldValue(st, ok, ft, data, tn, et.Field(i).Name())
+						x.writeLV(st, lv, Ite(ok, nv, x.readLV(st, lv)))
 					}
 					return e
 				case *types.Interface:
@@ -298,6 +303,53 @@ func (x *Exec) jsonUnmarshal(fr *Frame, st *State, ins ssa.Instruction, sig *typ
 	}
 	// anything else (a request object behind an interface): decoded in place inside external memory
 	return e
+}
+
+// typeKeyName: a name for a (named) struct type usable inside an SMT symbol.
+func typeKeyName(t types.Type) string {
+	if n, ok := types.Unalias(t).(*types.Named); ok {
+		if n.Obj().Pkg() != nil {
+			return n.Obj().Pkg().Name() + "_" + n.Obj().Name()
+		}
+		return n.Obj().Name()
+	}
+	return "anon"
+}
+
+// jsonFieldTerm: the value of field f of the document `data` decoded as struct type tn (for sorts the solver sees directly).
+func jsonFieldTerm(sort string, data *Term, tn, f string) *Term {
+	return UF("jsonfield_"+tn+"_"+f+"_"+sortSuffix(sort), sort, data)
+}
+
+func sortSuffix(s string) string {
+	r := strings.NewReplacer("(", "", ")", "", " ", "_")
+	return r.Replace(s)
+}
+
+// jsonFieldValue: the decoded value of one field. A list is a newly allocated slice (allocated before the value is made, so
+// that the value's well-formedness - arrays below the allocation watermark - does not contradict it).
+func (x *Exec) jsonFieldValue(st *State, ok *Term, ft types.Type, data *Term, tn, f string) *Term {
+	if sl, isSl := ft.Underlying().(*types.Slice); isSl {
+		arr := x.newRef(st)
+		v := x.freshVal(st, "decfield", ft).T
+		x.assume(st, Implies(ok, And(Ge(sLen(v), Int(0)), Or(Eq(sLen(v), Int(0)), And(Eq(sArr(v), arr), Eq(sOff(v), Int(0)), Ge(sCap(v), sLen(v)))))))
+		if b, isB := sl.Elem().Underlying().(*types.Basic); isB && b.Kind() == types.Uint8 {
+			x.assume(st, Implies(ok, Eq(x.bytesVal(st, v), jsonFieldTerm(sortBytes, data, tn, f))))
+			return v
+		}
+		es := sortOf(sl.Elem())
+		key, hs := elemHeapKey(sl.Elem())
+		heapSorts[key] = hs
+		row := Select(st.H(key, hs), sArr(v))
+		i := BoundVar("q_jf", "Int")
+		at := UF("jsonfieldat_"+tn+"_"+f+"_"+sortSuffix(es), es, data, i)
+		x.assume(st, Implies(ok, And(Eq(sLen(v), UF("jsonfieldlen_"+tn+"_"+f, "Int", data)),
+			Forall([]*Term{i}, [][]*Term{{Select(row, ix(sOff(v), i))}}, Implies(And(Ge(i, Int(0)), Lt(i, sLen(v))), Eq(Select(row, ix(sOff(v), i)), at))))))
+		return v
+	}
+	v := x.freshVal(st, "decfield", ft).T
+	x.assume(st, Implies(ok, Eq(v, jsonFieldTerm(v.Sort, data, tn, f))))
+	return v
 }
 
 func jsonAxioms() []*Term { return nil }
@@ -567,6 +619,66 @@ func sqlColumnsCheck(w *World) []string {
 				if !cols[t][col] {
 					out = append(out, fmt.Sprintf("%s: selects column %s which the INSERT into %s does not write", c[0], col, t))
 				}
+			}
+		}
+	}
+	return out
+}
+
+// cosmosTagsCheck: the patch paths used by the Cosmos DB updaters name the JSON fields of the entry structs that the
+// readers decode: "/stateStatus" must be the json tag of field StateStatus of the object's entry type, and so on (the
+// contracts pin path literal -> object field; this pins path literal -> entry field; the readers' contracts pin entry field
+// -> object field). Checked on the struct tags on every run.
+func cosmosTagsCheck(w *World) []string {
+	var pkgPath string
+	for path := range w.Pkgs {
+		if strings.HasSuffix(path, "/workflow/storage/cosmosdb") && isRepoPkg(path) {
+			pkgPath = path
+		}
+	}
+	if pkgPath == "" {
+		return nil
+	}
+	p := w.Pkgs[pkgPath].Types
+	want := map[string]map[string]string{ // entry type -> json name -> field
+		"plansEntry":     {"stateStatus": "StateStatus", "stateStart": "StateStart", "stateEnd": "StateEnd", "reason": "Reason", "submitTime": "SubmitTime"},
+		"blocksEntry":    {"stateStatus": "StateStatus", "stateStart": "StateStart", "stateEnd": "StateEnd"},
+		"checksEntry":    {"stateStatus": "StateStatus", "stateStart": "StateStart", "stateEnd": "StateEnd"},
+		"sequencesEntry": {"stateStatus": "StateStatus", "stateStart": "StateStart", "stateEnd": "StateEnd"},
+		"actionsEntry":   {"stateStatus": "StateStatus", "stateStart": "StateStart", "stateEnd": "StateEnd", "attempts": "Attempts"},
+	}
+	var out []string
+	var tns []string
+	for tn := range want {
+		tns = append(tns, tn)
+	}
+	sort.Strings(tns)
+	tagRe := regexp.MustCompile(`json:"([^",]*)`)
+	for _, tn := range tns {
+		obj := p.Scope().Lookup(tn)
+		if obj == nil {
+			out = append(out, "entry type "+tn+" not found")
+			continue
+		}
+		su, ok := obj.Type().Underlying().(*types.Struct)
+		if !ok {
+			out = append(out, tn+" is not a struct")
+			continue
+		}
+		byTag := map[string]string{}
+		for i := 0; i < su.NumFields(); i++ {
+			if m := tagRe.FindStringSubmatch(su.Tag(i)); m != nil {
+				byTag[m[1]] = su.Field(i).Name()
+			}
+		}
+		var js []string
+		for j := range want[tn] {
+			js = append(js, j)
+		}
+		sort.Strings(js)
+		for _, j := range js {
+			if byTag[j] != want[tn][j] {
+				out = append(out, fmt.Sprintf("%s: patch path /%s should address field %s, but the json tag %q belongs to field %q", tn, j, want[tn][j], j, byTag[j]))
 			}
 		}
 	}
